@@ -288,7 +288,7 @@ theorem log_stopped_step (s : Sched) (ev : Ev) (hinv : Inv s) (hs : s.stopped = 
       · rename_i hi
         rw [timerTask_eq]
         cases hk : (s.objs i).kill
-        · exact absurd hin (hinv.stop hs i hi hk e)
+        · exact absurd hin (hinv.stop hs i hi.1 hk e)
         · simp [fireAt]
       · rfl
     · rfl
